@@ -187,6 +187,9 @@ def hashOf (kind : Nat) (v : Nat) : Nat :=
   else if kind = 32 then
     -- `[u8; 32]` hashes as a slice: length prefix (`write_usize(32)`), then the bytes
     (Sip.hash13 (leEnc 8 32 ++ leEnc 32 v)).toNat
+  else if kind > 100 then
+    -- `[u8; n]` for `kind = 100 + n`
+    (Sip.hash13 (leEnc 8 (kind - 100) ++ leEnc (kind - 100) v)).toNat
   else (Sip.hash13 (leEnc kind v)).toNat
 
 def hsetStep (hk : Nat) (s : HSetS) (op : String) (args : List Int) : Option (HSetS × String) :=
